@@ -46,8 +46,14 @@ class Parallelogram(Domain):
         new_vec_1 = self._check_shape_of_evaluated_user_function(new_vec_1)
         new_vec_2 = self.corner_2.partially_evaluate(**data)
         new_vec_2 = self._check_shape_of_evaluated_user_function(new_vec_2)
-        return Parallelogram(
-            space=self.space, origin=new_origin, corner_1=new_vec_1, corner_2=new_vec_2
+        return self._evaluate_user_volume(
+            Parallelogram(
+                space=self.space,
+                origin=new_origin,
+                corner_1=new_vec_1,
+                corner_2=new_vec_2,
+            ),
+            **data,
         )
 
     def _check_shape_of_evaluated_user_function(self, domain_param):
